@@ -530,6 +530,51 @@ def family(name, rng, sid):
         return sc
     if name == "pop":
         return gen_base(rng, sid, "pop", pop=True, n=rng.randint(2, 4))
+    if name == "latewindow":
+        # a bar queued behind a predecessor that has already finished, aimed at a particular frame: a manually refreshed
+        # container draws a frame per request, and the Add is issued after the predecessor's k-th frame in its terminal state
+        # (k = 1: the ordinary hand-over; k = 2: the window of the recorded finding F2b; k = 3: the predecessor has left or has
+        # been popped).  Other bars finish afterwards, in pop mode more often than not.
+        pop = rng.random() < 0.6
+        k = rng.choice([1, 2, 2, 2, 3])
+        cfg = {"q": rng.choice([-1, 16]), "refresh": "manual", "pop": pop, "notifier": rng.random() < 0.5, "width": 160, "delay": False,
+               "outfault": 0, "ctx": False, "autotoo": False, "narrow": False, "uwg": False}
+        prog = [{"op": "add", "b": "b1", "total": 1}, {"op": "add", "b": "b2", "total": 2}]
+        nb = 2
+        if rng.random() < 0.5:
+            nb = 3
+            prog.append({"op": "add", "b": "b3", "total": 2})
+        if rng.random() < 0.3:
+            prog[0]["prio"] = rng.randint(0, 3)
+        if rng.random() < 0.3:
+            prog[0]["nopop"] = True
+        if rng.random() < 0.5:
+            prog.append({"op": "incr", "b": "b1", "n": 1})
+        else:
+            prog.append({"op": "abort", "b": "b1", "flag": False})
+        for j in range(1, k + 1):
+            prog.append({"op": "refresh"})
+            prog.append({"op": "nop", "when": {"b": "b1", "tf": j}})
+        q = "b%d" % (nb + 1)
+        prog.append({"op": "add", "b": q, "total": 2, "after": "b1"})
+        prog.append({"op": "refresh"})
+        prog.append({"op": "incr", "b": q, "n": 1})
+        order = ["b2"] + (["b3"] if nb == 3 else [])
+        rng.shuffle(order)
+        for b in order:
+            prog.append({"op": "incr", "b": b, "n": 2})
+            for j in range(1, 4):
+                prog.append({"op": "refresh"})
+                prog.append({"op": "nop", "when": {"b": b, "tf": j}})
+        prog.append({"op": "incr", "b": q, "n": 1})
+        for _ in range(4):
+            prog.append({"op": "refresh"})
+            prog.append({"op": "nop"})
+        prog.append({"op": "wait"})
+        for b in ["b1", "b2"] + (["b3"] if nb == 3 else []) + [q]:
+            prog.append({"op": "get", "b": b})
+        return {"id": sid, "family": "latewindow", "cfg": cfg, "clients": [prog],
+                "sched": {"mode": "random", "seed": rng.randrange(1 << 30), "tickw": 1, "steps": [], "budget": 0, "bias": []}, "stats": False}
     if name == "popqueue":
         # pop-completed mode with bars queued behind others: a finished predecessor hands its place to its successor instead of
         # being popped, and bars that finish later are popped above the successor that is still running
